@@ -12,6 +12,14 @@ CHECKS = {
    text="_validate_measurement is proved for every rational measurement >= 0 in both modes against the documented snapping (windows proved disjoint); both operand-code decoders are proved on symbolic code strings over the README's code language. File parsing, TP/LT merging, asmbench block handling and the YAML dump are covered by a bounded run-time contract on the real import_benchmark_output (exhaustive over the stated family) - labelled bounded, not counted as proved.",
    note="A-float (floats as rationals, decimal literals exact); operand codes restricted to the documented language; bounded family as in bounded/c20_import.py.",
    tech=TECH + "; bounded run-time contract for file parsing/dump"),
+ "C01": dict(cat="proof", ref="DESIGN.md section 4 C01",
+   text="Uniform scheduling: average_port_pressure is verified with loop invariants for an arbitrary number of ports, micro-ops and ports per micro-op (result = ghost uniform split acc, KeyError exactly for an unknown port), and the feasibility clauses of the statement (non-negative, zero on foreign ports, sums to total cycles, Hall condition for every port set) are proved as inductive lemmas over acc; _handle_instruction_found and the no-data branches of assign_tp_lt are proved; get_throughput_sum is proved for kernels <= 3 lines x 3 ports (bounded structure, symbolic values). Optimised scheduling (assign_optimal_throughput) is outside the prover's reach and is covered by a bounded run-time contract on the real method (exhaustive over stated 3-port families, 0/1/2 passes) - not counted as proved.",
+   note="A-float; list.index modelled by its defining property; optimiser part bounded only. Known finding: second balancing pass infeasible for instructions with overlapping-but-different micro-op port sets (known_findings.json).",
+   tech=TECH + "; inductive lemmas; bounded run-time contract for the optimiser"),
+ "C02": dict(cat="exploration", ref="DESIGN.md section 4 C02",
+   text="Bounded: run-time contract on the real assign_optimal_throughput over exactly the family the property names (5355 kernels over single-micro-op forms on every subset of 3 ports, 1 and 2 passes, exhaustive): bottleneck never exceeds the uniform one; after the CLI's two passes it is within 0.15 cy of the exact optimum (max over port subsets of confined cycles/|S|, computed independently) and never undercuts it beyond the rounding step. The only proved part is the Hall lower-bound lemma (any feasible split is >= the optimum).",
+   note="No contract within the prover's reach expresses optimality of the greedy balancer; decisive part is bounded (label B).",
+   tech="bounded run-time contract on the real function (exhaustive finite family) + one z3 lemma"),
 }
 NA = {
  "C17": "quantifies over file-system histories, crash points of cache writes and process races; no function contract decides it (needs fault enumeration / a file-system model)",
